@@ -137,7 +137,11 @@ type clientCfg struct {
 	ReadQueue, WriteQueue                   int
 	MinGzip                                 int
 	Handlers                                map[uint32][]func(*protocol.Packet)
-	TimeoutOptionFirst                      bool // pass KeepaliveTimeout before Keepalive (a legal option order)
+	TimeoutOptionFirst                      bool          // pass KeepaliveTimeout before Keepalive (a legal option order)
+	KeepaliveRaw, KeepaliveTimeoutRaw       time.Duration // exact durations (override the unit-based ones)
+	AfterRecSleepU                          int           // the after-reconnect callback takes this long
+	HandshakeVersion                        int           // handshake version announced by Dial (default: the scenario's version)
+	ReadBuffer                              int           // client.ReadBufferSize
 }
 
 func defaultCfg() clientCfg {
@@ -167,6 +171,9 @@ func (t *T) NewClient(p *Peer, cfg clientCfg) (client.Client, error) {
 	cl.AfterReconnected(func() {
 		atomic.AddInt32(&t.afterRec, 1)
 		t.ev("cb.after_reconnected")
+		if cfg.AfterRecSleepU > 0 {
+			time.Sleep(t.U(cfg.AfterRecSleepU))
+		}
 	})
 	cl.OnPing(func(p *protocol.Packet) {
 		atomic.AddInt32(&t.pingCb, 1)
@@ -177,7 +184,9 @@ func (t *T) NewClient(p *Peer, cfg clientCfg) (client.Client, error) {
 		t.ev("cb.pong", "rid", p.Metadata.RequestId, "body", fmt.Sprintf("%x", p.Body))
 	})
 	opts := []client.DialOption{client.DialTimeout(t.U(cfg.DialTimeoutU)), client.AuthTimeout(t.U(cfg.AuthTimeoutU))}
-	if cfg.KeepaliveU > 0 && cfg.TimeoutOptionFirst {
+	if cfg.KeepaliveRaw > 0 {
+		opts = append(opts, client.Keepalive(cfg.KeepaliveRaw), client.KeepaliveTimeout(cfg.KeepaliveTimeoutRaw))
+	} else if cfg.KeepaliveU > 0 && cfg.TimeoutOptionFirst {
 		opts = append(opts, client.KeepaliveTimeout(t.U(cfg.KeepaliveTimeoutU)), client.Keepalive(t.U(cfg.KeepaliveU)))
 	} else if cfg.KeepaliveU > 0 {
 		opts = append(opts, client.Keepalive(t.U(cfg.KeepaliveU)), client.KeepaliveTimeout(t.U(cfg.KeepaliveTimeoutU)))
@@ -199,6 +208,9 @@ func (t *T) NewClient(p *Peer, cfg clientCfg) (client.Client, error) {
 	}
 	if cfg.MinGzip > 0 {
 		opts = append(opts, client.MinGzipSize(cfg.MinGzip))
+	}
+	if cfg.ReadBuffer > 0 {
+		opts = append(opts, client.ReadBufferSize(cfg.ReadBuffer))
 	}
 	t.cl = cl
 	t.ev("api.dial.start")
@@ -500,6 +512,29 @@ func cmdClient(args []string) int {
 		lines := strings.Split(strings.TrimSpace(string(out)), "\n")
 		if jerr := json.Unmarshal([]byte(lines[len(lines)-1]), &r); jerr != nil {
 			r = scnResult{Name: j.s.Name, Transport: j.transport, Version: j.version, Seed: j.seed, Status: "crashed"}
+			// a crash of a race-detector run that was preceded by a report inside the library is a race witness first
+			if strings.Contains(stderr, "WARNING: DATA RACE") {
+				for _, rep := range strings.Split(stderr, "==================") {
+					if strings.Contains(rep, "WARNING: DATA RACE") && strings.Contains(rep, "openapi-protocol/go/") {
+						r.Status = "race"
+						if len(rep) > 5000 {
+							rep = rep[:5000]
+						}
+						r.Detail = rep
+						return r
+					}
+				}
+			}
+			// in a race-detector run a library panic that concurrency alone explains (two writers, send on a closed channel) is a witness too
+			if os.Getenv("OAP_SCN_BIN") != "" && (strings.Contains(stderr, "concurrent write to websocket connection") || strings.Contains(stderr, "send on closed channel") ||
+				strings.Contains(stderr, "concurrent map")) && strings.Contains(stderr, "openapi-protocol/go/") {
+				r.Status = "race"
+				if len(stderr) > 5000 {
+					stderr = stderr[:2500] + "\n…\n" + stderr[len(stderr)-2500:]
+				}
+				r.Detail = "WARNING: DATA RACE (witnessed by its consequence) " + stderr
+				return r
+			}
 			if len(stderr) > 6000 {
 				stderr = stderr[:3000] + "\n…\n" + stderr[len(stderr)-3000:]
 			}
